@@ -79,7 +79,12 @@ func runBounded(rep *Report, opts *Options, tag string, files map[string]string,
 	cmd.Dir = opts.RepoDir
 	cmd.Env = append(os.Environ(), env...)
 	out, _ := cmd.CombinedOutput()
-	text := string(out)
+	parseBounded(rep, string(out), tag, expect, checkName, boundDesc)
+}
+
+// parseBounded turns the ZZBOUNDED / ZZFAIL lines of a bounded harness into
+// evidence entries and bounded failures.
+func parseBounded(rep *Report, text, tag string, expect int, checkName, boundDesc string) {
 	re := regexp.MustCompile(`ZZBOUNDED (\w+) (?:K|types)=(\d+) (?:lists|pairs)=(\d+)(?: maxquoted=\d+)? failures=(\d+)`)
 	ms := re.FindAllStringSubmatch(text, -1)
 	if len(ms) != expect {
@@ -94,7 +99,7 @@ func runBounded(rep *Report, opts *Options, tag string, files map[string]string,
 	}
 	for _, m := range ms {
 		entry := map[string]interface{}{"check": checkName + "[" + m[1] + "]", "bound": boundDesc,
-			"cases_run": m[3], "failures": m[4], "kind": "bounded exhaustive execution of the real function (not a proof)"}
+			"cases_run": m[3], "failures": m[4], "kind": boundedKind(tag)}
 		rep.Bounded = append(rep.Bounded, entry)
 		if m[4] != "0" {
 			// failing inputs tagged "[<group>] ..." belong to that group's obligation
@@ -114,4 +119,12 @@ func runBounded(rep *Report, opts *Options, tag string, files map[string]string,
 			rep.BoundedFail = append(rep.BoundedFail, BoundedFailure{Name: "bounded." + checkName + "[" + m[1] + "]", Inputs: mine})
 		}
 	}
+}
+
+
+func boundedKind(tag string) string {
+	if tag == "c06map" {
+		return "bounded pseudo-random differential execution of the real functions against Go's own map (not a proof, not exhaustive)"
+	}
+	return "bounded exhaustive execution of the real function (not a proof)"
 }
